@@ -2,7 +2,8 @@
    M fixed mb a b nbad bad*                       -> 0 | 1 | 2 (raise)
    S fixed cap nbad bad* nev ev*                  -> per event: outs / query result, then the final tables
    ev  : pub epr types scopes xaddrs iid | clear epr | in mid msg | loop k | found typesopt sfopt
-   msg : hello aps svc | bye epr | probe typesopt sfopt | pm aps n svc* | resolve epr | rm aps (svc|~) | other
+   F fixed nbad bad* nsvc svc* typesopt sfopt     -> per service "<scope_in_list digits>:<matches_filter>", then "| <eprs kept by filter_services>" or "| E"
+   msg : hello aps svc | bye epr aps (mdv|~) types scopesopt xaddrs | probe typesopt sfopt | pm aps n svc* | resolve epr | rm aps (svc|~) | other
    svc : epr types scopesopt xaddrs mdv        types: n (ns local)*     scopesopt: ~ | n text*
    sfopt: ~ | sf mb n text*                        xaddrs: n x*             aps: ~ | int *)
 let rec n_of_int n = if n = 0 then N0 else Npos (pos_of_int n)
@@ -51,7 +52,11 @@ let () =
         { s_epr = epr; s_types = ty; s_scopes = sc; s_xaddrs = xa; s_mdv = mdv; s_iid = Z0 } in
       let msg () = match next () with
         | "hello" -> let a = aps () in MHello (a, svc ())
-        | "bye" -> MBye (unhex (next ()))
+        | "bye" ->
+          let epr = unhex (next ()) in let a = aps () in
+          let mdv = if peek_none () then None else Some (z_of_int (next_int ())) in
+          let ty = types () in let sc = scopes_opt () in let xa = strs () in
+          MBye (epr, { bx_appseq = a; bx_mdv = mdv; bx_types = ty; bx_scopes = sc; bx_xaddrs = xa })
         | "probe" -> let t = types_opt () in MProbe (t, sf_opt ())
         | "pm" -> let a = aps () in let n = next_int () in MProbeMatches (a, times n svc)
         | "resolve" -> MResolve (unhex (next ()))
@@ -65,6 +70,16 @@ let () =
          let a = unhex (next ()) in let b = unhex (next ()) in
          let badl = strs () in
          Buffer.add_string buf (string_of_int (int_of_n (run_match k fixed badl mb a b)))
+       | "F" ->
+         let fixed = next () = "1" in
+         let badl = strs () in
+         let nsvc = next_int () in
+         let svs = times nsvc svc in
+         let t = types_opt () in let sf = sf_opt () in
+         let (per, kept) = run_filter k fixed badl svs t sf in
+         let d n = string_of_int (int_of_n n) in
+         Buffer.add_string buf (String.concat " " (List.map (fun (l, m) -> String.concat "" (List.map d l) ^ ":" ^ d m) per));
+         Buffer.add_string buf (match kept with None -> " | E" | Some l -> " |" ^ String.concat "" (List.map (fun e -> " " ^ hex e) l))
        | "S" ->
          let fixed = next () = "1" in
          let cap = nat_of_int (next_int ()) in
